@@ -27,6 +27,8 @@ func init() {
 			{ID: "C10.R6", Floor: 3, Run: c03r5, Text: "batch range consumption (= C03.R5): index arithmetic over a batch query uses the recorded [StartIndex, EndIndex) ranges, so an index past the batch is rejected instead of returning a row outside it"},
 			{ID: "C10.R7", Floor: 1, Run: noDeferredEffects, Text: "no deferred state change (= C09.R10): a refused operation must not take effect through a defer"},
 			{ID: "C10.R8", Floor: 3, Run: cacheNeverRecycles, Text: "filter ids are never recycled: no method of Cache calls intPool.Recycle (a CachedFilter handle has no generation, so a stale handle must stay invalid)"},
+			{ID: "C10.R9", Floor: 20, Run: flagArgsNotComputed, Text: "option flags are not computed from values: at every call of an internal function with an (ID, bool) parameter pair the bool argument is a constant, a forwarded bool parameter, a stored flag or a presence test of a variadic argument - never derived from the value (the zero ID / zero entity are valid values)"},
+			{ID: "C10.R10", Floor: 2, Run: pointerAssertedFilters, Text: "filters the library recognises by asserting *T (CachedFilter, RelationFilter) are implemented by *T only (go/types: T itself does not implement ecs.Filter), so a T passed by value cannot slip past the guard against double registration"},
 		},
 	})
 }
